@@ -138,6 +138,11 @@ func c20text(g *zsim.Stream) string {
 		// around both ends of the range: not names
 		return fmt.Sprintf(pick(g, "Level(%d)", "LEVEL(%d)", "level(%d)"), g.Draw(14)-4)
 	}
+	if g.Chance(4) {
+		// texts that become a name only when they are unescaped once more than
+		// the encoding asks for (sent form-encoded they arrive as %2564ebug ...)
+		return pick(g, "%64ebug", "%45RROR", "fata%6c", "inf%6F", "%77arn", "%2564ebug")
+	}
 	if g.Chance(3) {
 		// letters that only an upper-case fold maps onto ASCII: no spelling of a name
 		return pick(g, "ınfo", "ıNFO", "panıc", "PANıC", "dpanıc", "DPANıC", "ſatal")
